@@ -222,3 +222,36 @@ func TestNormalizeAndDecodeType(t *testing.T) {
 		t.Errorf("dims: %+v", ti)
 	}
 }
+
+func TestParseExprPrefix(t *testing.T) {
+	src := "a = $1 AND b IS NULL RETURNING id, x"
+	toks, err := Tokenize(src)
+	if err != nil {
+		t.Fatal(err)
+	}
+	e, n, err := ParseExprPrefix(toks, src)
+	if err != nil || e.String() != "((a = $1) AND (b IS NULL))" || !toks[n].Is("returning") {
+		t.Fatalf("%v %d %v", e, n, err)
+	}
+	src = "$1, 'x')"
+	toks, _ = Tokenize(src)
+	e, n, err = ParseExprPrefix(toks, src)
+	if err != nil || e.String() != "$1" || n != 1 {
+		t.Fatalf("%v %d %v", e, n, err)
+	}
+	if _, _, err = ParseExprPrefix(nil, ""); err == nil {
+		t.Fatal("empty input must fail")
+	}
+	if b, ok := ParseBool("yes"); !ok || !b {
+		t.Fatal("ParseBool")
+	}
+	if n, ok := ParseInteger(" -12 "); !ok || n.Int64() != -12 {
+		t.Fatal("ParseInteger")
+	}
+	if _, ok := ParseInteger("1.0"); ok {
+		t.Fatal("ParseInteger must reject decimals")
+	}
+	if r, err := ParseNumeric("1.5e1"); err != nil || r.FloatString(1) != "15.0" {
+		t.Fatal("ParseNumeric")
+	}
+}
